@@ -200,6 +200,21 @@ def run(ctx):
             two_digit_year_window(ctx, P, PP)
     finally:
         uninstall()
+    if ctx.shard == 0:
+        # the same renderings from four threads at once (module-level parser shared by all of them); outcomes compared with
+        # the single-threaded ones, which are the round trips judged above
+        from vf import concurrent as CC
+        import random
+        r2 = random.Random(ctx.seed + 5)
+        pool = []
+        while len(pool) < 200:
+            t = r2.choice(render_gen.TEMPLATES)
+            dt = gen_dt(r2, cur)
+            if render_gen.in_domain(t, dt, cur):
+                text, exp, off = render_gen.render(t, dt, r2.randint(1, 6), '.', gen_offset(r2))
+                pool.append((text, tuple(sorted(t.flags.items()))))
+        CC.concurrent_pure(ctx, 'parse', ['dateutil.parser._parser'], lambda a: P.parse(a[0], **dict(a[1])), pool,
+                           10 if ctx.tier == 'quick' else 150, per_thread=30)
 
 
 def two_digit_year_window(ctx, P, PP):
@@ -241,6 +256,8 @@ def two_digit_year_window(ctx, P, PP):
 
 def floors(agg, tier):
     c, out = agg['counters'], []
+    from vf import concurrent as CC
+    CC.floor(c, 'parse', 1000, 1000, out)
     need = {'quick': 40000, 'thorough': 400000}[tier]
     if agg['evaluations'] < need:
         out.append('only %d evaluations (< %d)' % (agg['evaluations'], need))
